@@ -1144,41 +1144,49 @@ fn program(r: &mut Rng, max: usize, log: &mut Vec<String>) {
                 }
             }
             8 => {
-                log.push(format!("#{i}.clone_from(#{j}); then add_arc({a},{b})"));
-                if i != j {
-                    let (x, y) = if i < j {
-                        let (l, rr) = pool.split_at_mut(j);
-                        (&mut l[i], &rr[0])
-                    } else {
-                        let (l, rr) = pool.split_at_mut(i);
-                        (&mut rr[0], &l[j])
-                    };
-                    match (x, y) {
-                        (Val::AL(p), Val::AL(q)) => {
-                            p.clone_from(q);
-                            mutate(p, a, b);
-                        }
-                        (Val::AM(p), Val::AM(q)) => {
-                            p.clone_from(q);
-                            mutate(p, a, b);
-                        }
-                        (Val::MX(p), Val::MX(q)) => {
-                            p.clone_from(q);
-                            mutate(p, a, b);
-                            let _ = catch(|| p.toggle(b, a));
-                            // a clone has an exactly sized buffer
-                            let mut c = p.clone();
-                            mutate(&mut c, a, b);
-                            let _ = catch(|| c.toggle(b, a));
-                            let _ = catch(|| c.arcs().count());
-                        }
-                        (Val::EL(p), Val::EL(q)) => {
-                            p.clone_from(q);
-                            mutate(p, a, b);
-                        }
-                        (Val::WU(p), Val::WU(q)) => p.clone_from(q),
-                        (Val::WI(p), Val::WI(q)) => p.clone_from(q),
-                        _ => {}
+                // overwrite value #i by clone_from(a fresh digraph of the same type and ANOTHER order),
+                // then keep using ids that were valid before
+                let n2 = *r.pick(&[1usize, 2, 3, 5, 8, 9, 12, 24]);
+                let f2 = r.below(gen::FAMILIES.len());
+                let src = gen::family(r, f2, n2);
+                log.push(format!("#{i}.clone_from(fresh order {n2}); then add_arc({a},{b}) on it and on a clone"));
+                match &mut pool[i] {
+                    Val::AL(p) => {
+                        p.clone_from(&AdjacencyList::build(&src));
+                        mutate(p, a, b);
+                        traverse(p, 0, &[a], b);
+                    }
+                    Val::AM(p) => {
+                        p.clone_from(&AdjacencyMap::build(&src));
+                        mutate(p, a, b);
+                        traverse(p, 7, &[a], b);
+                    }
+                    Val::MX(p) => {
+                        p.clone_from(&AdjacencyMatrix::build(&src));
+                        mutate(p, a, b);
+                        let _ = catch(|| p.toggle(b, a));
+                        let _ = catch(|| p.has_arc(a, b));
+                        // a clone has an exactly sized buffer
+                        let mut c = p.clone();
+                        mutate(&mut c, a, b);
+                        let _ = catch(|| c.toggle(b, a));
+                        let _ = catch(|| c.arcs().count());
+                        traverse(&c, 0, &[a], b);
+                    }
+                    Val::EL(p) => {
+                        p.clone_from(&EdgeList::build(&src));
+                        mutate(p, a, b);
+                        traverse(p, 3, &[a], b);
+                    }
+                    Val::WU(p) => {
+                        p.clone_from(&build_w_usize(&src));
+                        let _ = catch(|| p.add_arc_weighted(a, b, 1));
+                        let _ = catch(|| DijkstraDist::new(p, [a].into_iter()).distances());
+                    }
+                    Val::WI(p) => {
+                        p.clone_from(&build_w_isize(&src));
+                        let _ = catch(|| p.add_arc_weighted(a, b, -1));
+                        let _ = catch(|| BellmanFordMoore::new(p, a).distances().map(<[isize]>::to_vec));
                     }
                 }
             }
